@@ -48,6 +48,20 @@ theorem c18_no_leak_first_fails :
 theorem c18_elem_size_refused :
     (run VM.init Gen.vmElemSize).outcome = some false ∧ Gen.vmElemSize.length = 1 := by decide
 
+/-- On every path (success, either mapping refused, bad element size) the stream unmaps and re-maps only
+address space it holds at that moment: no `munmap` of a range already given back, no `MAP_FIXED` onto a range that
+is not reserved — so a set-up or tear-down on one thread can never destroy or take over what another thread was
+handed in between. -/
+theorem c18_touches_only_own :
+    ownOnly VM.init Gen.vmSuccess = true ∧ ownOnly VM.init Gen.vmSecondFails = true ∧
+    ownOnly VM.init Gen.vmFirstFails = true ∧ ownOnly VM.init Gen.vmElemSize = true := by decide
+
+/-- … and the predicate does see such faults: a second `munmap` of the reservation, or a `MAP_FIXED` after the
+upper half was given back. -/
+theorem c18_own_only_witnesses :
+    ownOnly VM.init [.open_, .truncate 2, .mmap 2 true, .mmapFixed 1 1 false, .munmap 0 2, .munmap 0 2] = false ∧
+    ownOnly VM.init [.open_, .truncate 2, .mmap 2 true, .munmap 1 1, .mmapFixed 1 1 true] = false := by decide
+
 /-- Mappings and the descriptor evolve independently of the bookkeeping fields. -/
 theorem run_indep (s : List Call) (v w : VM) (hm : v.maps = w.maps) (hf : v.fdOpen = w.fdOpen) :
     (run v s).maps = (run w s).maps ∧ (run v s).fdOpen = (run w s).fdOpen := by
